@@ -2313,6 +2313,13 @@ func (m *message) encode(op *operation) error {
 		op.bufferPool.Put(buf)
 		return err
 	}
+	if limit := op.bufferLimit(); limit >= 0 && int64(len(data)) > limit {
+		// The limit applies to every form in which the message is held, not only to the
+		// one that finally goes out: compressed, a re-encoded message far beyond the
+		// limit could otherwise still pass the size check of the send stage.
+		op.bufferPool.Put(op.bufferPool.Wrap(data, buf))
+		return bufferLimitError(limit)
+	}
 	op.bufferPool.Put(m.buf)
 	verifPoint("msg:swap")
 	m.buf = op.bufferPool.Wrap(data, buf)
